@@ -236,10 +236,13 @@ VARIABLES gFiles, gStore, gDb, gAny, gW, gRet, gObs, gHist
 vars == <<gFiles, gStore, gDb, gAny, gW, gRet, gObs, gHist>>
 
 \* In the big grain the files on disk are chosen anew by every step, and of the
-\* last verdict only a wrong one needs to be told apart.
+\* last verdict only a wrong one needs to be told apart.  The kind of the last
+\* step is kept so that histories ending in a call are not all hidden behind
+\* equivalent ones ending in a killed call (one history is emitted per view).
+LastOp == IF gHist = <<>> THEN "-" ELSE gHist[Len(gHist)].op
 view == IF Grain # "small"
-        THEN <<gStore, gDb, gAny, gObs, IF gRet.k = "wrong" THEN gRet.why ELSE {"-"}>>
-        ELSE <<gFiles, gStore, gDb, gAny, gW, gObs, IF gRet.k = "wrong" THEN gRet.why ELSE {"-"}>>
+        THEN <<gStore, gDb, gAny, gObs, LastOp, IF gRet.k = "wrong" THEN gRet.why ELSE {"-"}>>
+        ELSE <<gFiles, gStore, gDb, gAny, gW, gObs, LastOp, IF gRet.k = "wrong" THEN gRet.why ELSE {"-"}>>
 
 Mech == [store |-> gStore, db |-> gDb, any |-> gAny, w |-> gW]
 SetMech(t) == /\ gStore' = t.store
@@ -299,6 +302,11 @@ Corrupt == \E how \in {"trunc", "flip"} : CorruptDb(how) \/ \E k \in DOMAIN gSto
 
 At(w) == IF w.pc = "storing" THEN "storing" \o ToString(w.i) ELSE w.pc
 
+\* SIGKILL leaves the same directory behind at every program counter before the store begins
+\* (nothing), at storing(1) (a value without a row) and from storing(2) on (a committed row):
+\* the big grain kills at one representative of each; the small grain at every pc.
+KillRep(w) == w.pc = "called" \/ (w.pc = "storing" /\ w.i <= 2)
+
 \* files may have changed since the last step; only the files the call reads matter
 FilesFor(c) == {f \in FileStates : \A p \in Paths : (\A j \in 1..Len(c.fl) : c.fl[j] # p) => f[p] = gFiles[p]}
 
@@ -306,7 +314,7 @@ BigStep(f2, c, which) ==      \* which: "any" | "call" | "kill"
   /\ Room /\ gW.pc = "idle" /\ InFocus(f2, c) /\ Observe(f2, c)
   /\ LET R == Reach(Devs, f2, [Mech EXCEPT !.w = Begin(c)])
      IN \E t \in R :
-          /\ t.w.pc = "done" \/ "kill" \in Faults
+          /\ t.w.pc = "done" \/ ("kill" \in Faults /\ KillRep(t.w))
           /\ which = "any" \/ (which = "call") = (t.w.pc = "done")
           /\ SetMech([t EXCEPT !.w = Idle])   \* returned -- or SIGKILL: the process is gone, the directory stays as it is
           /\ gFiles' = f2
